@@ -239,6 +239,9 @@ def run_config_symbolic(pid, cfg, tier, seed):
                     cases.append((path.result, path))
             rec['explorer'] = ex.stats
             rec['paths'] = ex.stats['paths']
+            if ex.stats['truncated']:
+                rec['obligations'].append({'name': 'path-exploration-complete', 'kind': 'true', 'verdict': 'unknown', 's': 0.0,
+                                           'size': 0, 'method': 'explore', 'note': 'max_paths reached: exploration truncated'})
         else:
             c = _ctx.new()
             c.fork_where = False
@@ -268,8 +271,19 @@ def run_config_symbolic(pid, cfg, tier, seed):
             rec.setdefault('witness', []).append(wit_status)
             if wit_status == 'infeasible-path':
                 continue
+            # joint SMT sweeping of all obligations that ask for it (lemmas are shared between them)
+            sw = [o for o in case.obs if o.method == 'sweep' and o.goal() is not tm.TRUE]
+            swept = {}
+            if sw:
+                goals = [o.goal() for o in sw]
+                hints = [L(h) for o in sw for h in o.hints]
+                newg, log = prove.sweep(goals, A, B.sampler(seed), timeout_ms=min(timeout_ms, 3000), hints=hints,
+                                        budget_s=cfg.get('sweep_budget_s', 60 if tier == 'quick' else 600))
+                rec.setdefault('sweeps', []).append(log)
+                for o, g in zip(sw, newg):
+                    swept[id(o)] = g
             for o in case.obs:
-                orec = discharge(mod, pid, cfg, o, A, B, timeout_ms, seed, path)
+                orec = discharge(mod, pid, cfg, o, A, B, timeout_ms, seed, path, swept.get(id(o)))
                 rec['obligations'].append(orec)
     except Exception as e:
         rec['error'] = '%s: %s\n%s' % (type(e).__name__, e, traceback.format_exc()[-1500:])
@@ -278,7 +292,7 @@ def run_config_symbolic(pid, cfg, tier, seed):
     return rec
 
 
-def discharge(mod, pid, cfg, o, A, B, timeout_ms, seed, path):
+def discharge(mod, pid, cfg, o, A, B, timeout_ms, seed, path, swept_goal=None):
     from . import prove
     goal = o.goal()
     AA = A + [L(a) for a in o.assume]
@@ -304,10 +318,7 @@ def discharge(mod, pid, cfg, o, A, B, timeout_ms, seed, path):
         if res is not None:
             pass
         elif o.method == 'sweep':
-            roots, log = prove.sweep([goal], AA, B.sampler(seed), timeout_ms=min(to, 5000), hints=[L(h) for h in o.hints],
-                                     budget_s=to / 1000.0 * 3)
-            orec['sweep'] = log
-            g2 = roots[0]
+            g2 = swept_goal if swept_goal is not None else goal
             if g2 is tm.TRUE:
                 res = prove.Result('proved', note='sweep')
             else:
